@@ -1078,6 +1078,7 @@ from ..mutants import Mut  # noqa: E402
 
 _V = "urwid/vterm.py"
 MUTANTS = [
+    Mut("twin-decrc-deepcopy", "urwid/vterm.py", "TermCanvas.restore_cursor", "(copy.copy(self.saved_attrs[0]), copy.copy(self.saved_attrs[1]))", "(copy.copy(self.saved_attrs[0]), copy.deepcopy(self.saved_attrs[1]))", twin=True),
     Mut("resize-grow-leaves-cursor-row", "urwid/vterm.py", "TermCanvas.resize", "                y += 1  # the cursor stays on its line\n", "", "PAIR|vterm.TermCanvas.resize|resize: insert(0) without moving the cursor row"),
     Mut("resize-shrink-leaves-cursor-row", "urwid/vterm.py", "TermCanvas.resize", "                y -= 1  # the cursor stays on its line\n", "", "PAIR|vterm.TermCanvas.resize|resize: pop(0) without moving the cursor row"),
     Mut("esc-keeps-unfinished-sequence", "urwid/vterm.py", "TermCanvas.process_char", "            # an ESC abandons an unfinished sequence and starts a new one\n            self.leave_escape()\n", "", "ORDER|vterm.TermCanvas.process_char|ESC does not abandon an unfinished sequence"),
